@@ -246,7 +246,9 @@ class Check:
                 status = 3
         wall = time.time() - self.t0
         expl = ('Static analysis over the resolved program (HIR with type-check results, exported by a rustc driver '
-                'from /repo\'s working tree). Decides structural necessary conditions only. Clauses decided: '
+                'from /repo\'s working tree): structural rules (dominance, pairing, who-may-call, tables, sibling agreement, encapsulation) and, where a clause is about '
+                'what a closed fragment computes, exhaustive evaluation of that fragment over a stated finite scope by a source-level interpreter of the HIR '
+                '(rules named E3-*; nothing of the crate is compiled or run, external crates are host models). Clauses decided: '
                 + '; '.join(self.clauses_decided) + '. NOT decided (outside this family): '
                 + '; '.join(self.clauses_not_decided) + '.')
         ev = {
